@@ -17,6 +17,7 @@
 import SnowProofs.Lemmas.FlakeAdm
 import SnowProofs.Props.C05
 import SnowProofs.Lemmas.FlakeGeom
+import SnowProofs.Lemmas.FlakeExRun
 
 namespace Snow.C06
 open Snow Num Snow.Flake Snow.FlakeLemmas
@@ -897,5 +898,126 @@ theorem sideCond_witness :
   have := hb.2
   norm_num at this ⊢
   linarith
+
+/-! ### non-vacuity on a run WITH ice (`Lemmas/FlakeExRun.lean`) -/
+
+section exrun
+open Snow.FlakeExRun
+
+theorem x_stable : Stable xPhys xParams 1 (-5) (-1) := by
+  have hH : Hsum xParams 0 = 1 / 4 := by simp only [Hsum, xParams]; norm_num
+  have hcm : cpMin xPhys = 1 := by unfold cpMin; rw [x_cpl, x_cp]; simp
+  refine ⟨xPhys_valid, by simp [xParams], rfl, ?_, ?_, ?_, ?_, ?_, ?_⟩
+  · intro i hi
+    have : i = 0 := by omega
+    subst this
+    constructor <;> simp only [xParams] <;> norm_num
+  · intro i hi j hj
+    have : i = 0 := by omega
+    subst this
+    simp [xParams] at hj
+  · intro i hi
+    have : i = 0 := by omega
+    subst this
+    rw [hH, x_m, hcm]; simp only [xParams]; norm_num
+  · intro i hi
+    have : i = 0 := by omega
+    subst this
+    rw [hH, x_m, hcm, x_D]; simp only [xParams, xPhys]; norm_num
+  · rw [x_TeqL]
+  · rw [x_TeqL, x_gamma]; norm_num
+
+theorem x_wf : Snow.C05.WF xInp.oc xInp.p.dt := by
+  refine ⟨by simp [xInp, xParams], by simp [xInp], by simp [xInp], ?_, ?_, ?_⟩
+  · simp [xInp, Snow.OpCondLemmas.Desc]
+  · simp [xInp, Snow.OpCondLemmas.lastTemp]
+  · intro x hx; simp [xInp] at hx
+
+theorem x_heat (v : Vial ℝ) : heatFlow xParams (temps (xS v)) (-5) (-5) 0 = 1 / 4 * (-5 - v.T) := by
+  simp [heatFlow, qInt, hExt, hShelf, hDiag, hOff, xParams, temps, xS]
+
+/-- a one-vial state not colder than the shelf is not warmed: the side condition holds -/
+theorem x_sideCond (v : Vial ℝ) (hv : -5 ≤ v.T) : SideCond xPhys xParams (xS v) (-5) := by
+  intro i v' hv' _ hq
+  have hi : i = 0 := by
+    by_contra hne
+    have : (xS v).vials[i]? = none := Array.getElem?_eq_none (by simp [xS]; omega)
+    rw [this] at hv'; exact absurd hv' (by simp)
+  subst hi
+  rw [x_heat] at hq
+  linarith
+
+theorem x_cols (j : Nat) (sj : State ℝ) (hj : (runWith xInp 0).traj[j]? = some sj) :
+    (j = 0 ∧ sj = init xInp) ∨ (j = 1 ∧ sj = xS xV1) ∨ (j = 2 ∧ sj = xS xV2) ∨ (j = 3 ∧ sj = xS xV3) := by
+  rw [← Array.getElem?_toList, x_traj] at hj
+  match j, hj with
+  | 0, hj => left; exact ⟨rfl, by simpa using hj.symm⟩
+  | 1, hj => right; left; exact ⟨rfl, by simpa using hj.symm⟩
+  | 2, hj => right; right; left; exact ⟨rfl, by simpa using hj.symm⟩
+  | 3, hj => right; right; right; exact ⟨rfl, by simpa using hj.symm⟩
+  | j + 4, hj => simp at hj
+
+theorem x_hside : ∀ (j : Nat) (sj : State ℝ) (T : ℝ), (runWith xInp 0).traj[j]? = some sj →
+    (runWith xInp 0).Tshelf[j]? = some T → SideCond xPhys xInp.p sj T := by
+  intro j sj T hj hT
+  have hT5 : T = -5 := by
+    rw [x_Tshelf] at hT
+    match j, hT with
+    | 0, hT | 1, hT | 2, hT | 3, hT => simpa using hT.symm
+    | j + 4, hT => simp at hT
+  subst hT5
+  rcases x_cols j sj hj with ⟨_, rfl⟩ | ⟨_, rfl⟩ | ⟨_, rfl⟩ | ⟨_, rfl⟩
+  · apply sideCond_of_liquid
+    intro i v hv
+    simp only [init, Array.getElem?_replicate] at hv
+    split at hv
+    · simp only [Option.some.injEq] at hv; rw [← hv]; simp
+    · simp at hv
+  · exact x_sideCond xV1 (by simp [xV1]; norm_num)
+  · exact x_sideCond xV2 (by simp [xV2]; norm_num)
+  · exact x_sideCond xV3 (by simp [xV3]; norm_num)
+
+/-- **the run theorems applied to a run WITH ice.** For the concrete run `xInp` (one vial, shelf
+held at −5 °C, controlled nucleation at step 0; the vial nucleates with σ = 1/2 and keeps
+solidifying: σ = 19/32, 8933/13600) all hypotheses hold — `C05.WF`, `Stable`, the temperature
+ordering, `SideCond` at every step, `TrajAdm` — and `run_admissible_partial`,
+`run_bounds_partial`, `ice_iff_recorded` are each applied to a column that contains ice
+(`run_trichotomy_partial`: `C01.nonvacuous_run`). -/
+theorem nonvacuous_run :
+    Snow.C05.WF xInp.oc xInp.p.dt ∧ Stable xPhys xInp.p xInp.nVials xInp.oc.stop (-1) ∧
+    (∀ (j : Nat) (sj : State ℝ) (T : ℝ), (runWith xInp 0).traj[j]? = some sj →
+      (runWith xInp 0).Tshelf[j]? = some T → SideCond xPhys xInp.p sj T) ∧
+    TrajAdm xPhys xInp.p 0 0 (profile xInp.oc xInp.p.dt) (init xInp) ∧
+    (runWith xInp 0).traj.toList = [init xInp, xS xV1, xS xV2, xS xV3] ∧
+    -- run_admissible_partial at column 2
+    Adm xPhys xV2 ∧
+    -- run_bounds_partial at column 3: on the curve, below T_eq_l, not colder than the shelf
+    (xV3.T = xPhys.curve xV3.sigma ∧ xV3.T < xPhys.TeqL ∧ (-5 : ℝ) ≤ xV3.T) ∧
+    -- ice_iff_recorded at column 2: ice, and the final statistics hold t_nuc ≤ t[2]
+    (∃ vf, (runWith xInp 0).final.vials[0]? = some vf ∧
+      (xV2.sigma ≠ 0 ↔ ∃ t, vf.tNuc = some t ∧ t ≤ timeAt xInp.p.dt 2)) := by
+  have hst : Stable xPhys xInp.p xInp.nVials xInp.oc.stop (-1) := x_stable
+  have h0 : xInp.oc.start ≤ xInp.T0 := by simp only [xInp]; norm_num
+  have h1 : xInp.T0 ≤ -1 := by simp only [xInp]; norm_num
+  have h2 : xInp.oc.start ≤ -1 := by simp [xInp]
+  have hc2 : (runWith xInp 0).traj[2]? = some (xS xV2) := by
+    rw [← Array.getElem?_toList, x_traj]; rfl
+  have hc3 : (runWith xInp 0).traj[3]? = some (xS xV3) := by
+    rw [← Array.getElem?_toList, x_traj]; rfl
+  have hv2 : (xS xV2).vials[0]? = some xV2 := by simp [xS]
+  have hv3 : (xS xV3).vials[0]? = some xV3 := by simp [xS]
+  have hadm : TrajAdm xPhys xInp.p 0 0 (profile xInp.oc xInp.p.dt) (init xInp) := by
+    intro j sj hj i v hv
+    have hj' : (runWith xInp 0).traj[j]? = some sj := by
+      rw [← Array.getElem?_toList, Snow.FlakeRun.runWith_traj]; exact hj
+    exact (run_admissible_partial xInp 0 (-1) x_wf hst h0 h1 h2 x_hside j sj hj' i v hv).1
+  have hA := (run_admissible_partial xInp 0 (-1) x_wf hst h0 h1 h2 x_hside 2 _ hc2 0 xV2 hv2).1
+  have hB := run_bounds_partial xInp 0 (-1) x_wf hst h0 h1 h2 x_hside 3 _ hc3 0 xV3 hv3
+  have hσ3 : xV3.sigma ≠ 0 := by simp [xV3]
+  have hlow := (hB.2.2.2.2 2 (-5) rfl (by rw [x_Tshelf]; rfl)).1
+  have hI := ice_iff_recorded xInp 0 hst.dt_pos hadm 2 _ hc2 0 xV2 hv2
+  exact ⟨x_wf, hst, x_hside, hadm, x_traj, hA, ⟨(hB.2.1 hσ3).1, (hB.2.1 hσ3).2, hlow⟩, hI⟩
+
+end exrun
 
 end Snow.C06
